@@ -178,6 +178,17 @@ pub fn c04_scenarios() -> Vec<Scenario> {
         vec![StreamSpec::new(MsgSpec { head: HeadKind::Big20k, end: EndKind::Trailers, ..m(&[3]) }, MsgSpec { interim: 2, head: HeadKind::Big20k, end: EndKind::Trailers, ..m(&[3]) }), StreamSpec::new(m(&[1]), m(&[1]))],
     ));
     v.push(mk("server-drop", Cfg::default(), vec![StreamSpec { cancel: Cancel::ServerDrop, ..StreamSpec::new(m(&[5]), m(&[5])) }, StreamSpec::new(m(&[1]), m(&[1]))]));
+    // the codec is filled by an earlier frame (30 KB header block / 20 KB DATA) while a later request is reset or dropped
+    v.push(mk(
+        "reset-behind-big-headers",
+        Cfg::default(),
+        vec![StreamSpec::new(MsgSpec { head: HeadKind::Big20k, ..m(&[]) }, m(&[1])), StreamSpec { cancel: Cancel::ClientReset { after_chunks: 0, code: 8 }, ..StreamSpec::new(m(&[4]), m(&[4])) }],
+    ));
+    v.push(mk(
+        "reset-behind-big-data",
+        Cfg::default(),
+        vec![StreamSpec::new(m(&[20000]), m(&[1])), StreamSpec { cancel: Cancel::ClientReset { after_chunks: 1, code: 8 }, ..StreamSpec::new(m(&[4, 4]), m(&[4])) }, StreamSpec { cancel: Cancel::ClientDrop { after_chunks: 0 }, ..StreamSpec::new(m(&[4]), m(&[4])) }],
+    ));
     for first in [0x7fff_fffbu32, 0x7fff_fffd, 0x7fff_ffff] {
         v.push(mk(
             &format!("id-exhaustion-{:#x}", first),
@@ -501,6 +512,17 @@ pub fn c17_scenarios(quick: bool) -> Vec<Scenario> {
         Cfg { s_stream_window: Some(0), ..Cfg::default() },
         vec![StreamSpec { cancel: Cancel::ClientReset { after_chunks: 1, code: 2 }, ..StreamSpec::new(m(&[5, 1]), m(&[2])) }, StreamSpec::new(m(&[]), m(&[2]))],
     ));
+    // another stream has a large frame parked in the codec (write back-pressure) with a remainder still to send
+    v.push(mk(
+        "reset-while-other-stream-in-codec",
+        Cfg::default(),
+        vec![StreamSpec { cancel: Cancel::ClientReset { after_chunks: 1, code: 8 }, ..StreamSpec::new(m(&[5, 5]), m(&[4])) }, StreamSpec::new(m(&[20000]), m(&[2]))],
+    ));
+    v.push(mk(
+        "server-reset-while-other-stream-in-codec",
+        Cfg { vectored: true, ..Cfg::default() },
+        vec![StreamSpec { cancel: Cancel::ServerReset { after_chunks: 1, code: 2 }, ..StreamSpec::new(m(&[3]), m(&[5, 5])) }, StreamSpec::new(m(&[2]), m(&[20000]))],
+    ));
     v.push(mk(
         "reset-expire-now",
         Cfg { reset_expire_now: true, ..Cfg::default() },
@@ -511,7 +533,7 @@ pub fn c17_scenarios(quick: bool) -> Vec<Scenario> {
 
 pub fn run_c17(ctx: &Ctx) -> Outcome {
     let scs = c17_scenarios(ctx.tier.is_quick());
-    let max_dev = if ctx.tier.is_quick() { 1 } else { 2 };
+    let max_dev = if ctx.tier.is_quick() { 2 } else { 3 };
     let mut out = run_t1_property(ctx, "C17", &scs, judge_c17, max_dev, full_policy(), &["partial_writes"]);
     // code plumbing: all 2^32 values (thorough) / both half-words completely (quick) through the real frame encode/parse and Error mapping
     let (n, bad) = crate::codes::code_round_trip(ctx);
